@@ -584,7 +584,8 @@ PROPS["C15"] = {
 PROPS["C16"] = {
     "coq": "theories/Props/C16.v",
     "theorems": ["C16_crc16_detects_bursts", "C16_crc8_detects_bursts", "C16_crc_is_bitwise", "C16_crc16_accept_iff",
-                 "C16_crc16_field_bursts", "C16_crc8_field_bursts", "C16_footer_bursts"],
+                 "C16_crc16_field_bursts", "C16_crc8_field_bursts", "C16_footer_bursts",
+                 "C16_accepted_frame_has_valid_crc", "C16_altered_frame_rejected_at_boundary"],
     "streams": [PARSE_STREAM], "rule": PARSE_RULE,
     "oracle": parse_oracle,
     "assumptions": ["PARTIAL: bursts that change the number of bits consumed by the subframes (CRC window moves) are enumerated, not proved",
